@@ -8,6 +8,7 @@ package vsys
 
 import (
 	"runtime"
+	"strings"
 	"sync"
 	"sync/atomic"
 	"time"
@@ -154,3 +155,14 @@ func Point(id int) {
 func PointB(id int) bool { Point(id); return true }
 
 func sleepNs(ns int64) { time.Sleep(time.Duration(ns)) }
+
+// PointsIn returns the ids of the yield points inserted into files whose path contains sub.
+func PointsIn(sub string) []int {
+	var out []int
+	for i, d := range PointTable {
+		if strings.Contains(d, sub) {
+			out = append(out, i+1)
+		}
+	}
+	return out
+}
